@@ -1,0 +1,23 @@
+//go:build verif
+
+package lexer
+
+// Verification hook (build tag "verif" only): a budget of tokens that the
+// lexer may still hand out. A negative budget means "unlimited". When the
+// budget is exhausted, NextToken panics with VerifBudgetExceeded, which turns
+// a token-consuming loop that never terminates into an immediate,
+// deterministic and recoverable failure.
+var VerifTokenBudget int64 = -1
+
+// VerifBudgetExceeded is the panic value used when the token budget runs out.
+type VerifBudgetExceeded struct{}
+
+func verifTick() {
+	if VerifTokenBudget < 0 {
+		return
+	}
+	if VerifTokenBudget == 0 {
+		panic(VerifBudgetExceeded{})
+	}
+	VerifTokenBudget--
+}
